@@ -1,6 +1,7 @@
 from __future__ import annotations
 import logging
 import copy
+import operator
 import numpy as np
 from typing import TYPE_CHECKING, Tuple
 
@@ -199,6 +200,12 @@ class DeriveMask2D:
         """
 
         from autoarray.mask.mask_2d import Mask2D
+
+        # plain ints: the footprint half-widths negate the kernel sides, which wraps around for numpy unsigned integers
+        kernel_shape_native = (
+            operator.index(kernel_shape_native[0]),
+            operator.index(kernel_shape_native[1]),
+        )
 
         if kernel_shape_native[0] % 2 == 0 or kernel_shape_native[1] % 2 == 0:
             raise exc.MaskException("psf_size of exterior region must be odd")
